@@ -77,6 +77,10 @@ class Sched:
             elif kind == "join":
                 if info in self.finished:
                     en.append((name, "go"))
+            elif kind == "sleep":
+                en.append((name, "go"))
+                if info:                       # the harness allows a KeyboardInterrupt to be delivered at this poll
+                    en.append((name, "interrupt"))
             else:
                 en.append((name, "go"))
         return sorted(en)
